@@ -13,6 +13,8 @@ claimed = {
              ref="6/C19", note=NOTE + " The append growth rule of the Go runtime is re-implemented in the interpreter."),
  "C20": dict(text="Every builder call sequence of bounded length (15 call kinds incl. nil/blank arguments, check type and block arguments symbolic) is run through the real builder and a reference interpreter written from the documentation; after each call Err() presence and identity (sticky first error) are asserted, every history ends in Plan() whose result is compared structurally with the directly constructed plan; any panic is a violation. A second harness starts from every cursor level x stored error x emitted state constructed directly.",
              ref="6/C20", note=NOTE),
+ "C05": dict(text="One action is driven through the real actions.Runner state machine (Start/GetPlugin/Execute/exec/End under the real statemachine.Run) with Retries, Timeout, the clock and the verdict of every attempt as solver variables; invocation count, no-call-after-final, one attempt per invocation carrying that invocation's verdict, ordering of times, cancellation on overrun, wrong-type handling and durability before the next attempt are asserted on every path. Run for sequence actions, check actions, and with unbounded Retries.",
+             ref="6/C05", note=NOTE),
 }
 NA = {
  "C17": "quantifies over Go type shapes and the code is reflection from top to bottom (reflect, html/template, deep.MustCopy); go/ssa gives no semantics for reflect and types are not SMT values, so a solver would decide nothing (DESIGN.md section 7)",
